@@ -279,7 +279,8 @@ def gateH : Handler := fun inp impl => do
   let spec := (!refused || hits == 0) && (hits == 0 || (admittedOK && authOk && !noroute))
     && (ioutcome == "200" || ioutcome == "echo" || refused || is3xx)
     && (!is3xx || (admittedOK && authOk && !noroute && redirectCode.isSome && hits == 0))
-  let tag := proto ++ "-" ++ (match err with | some _ => "badrule" | none => modeOf allow deny) ++ "-"
+  let kind := getStrD inp "kind"   -- "ws" / "sse": the websocket handler resp. the flushing reverse proxy
+  let tag := proto ++ (if kind != "" then "/" ++ kind else "") ++ "-" ++ (match err with | some _ => "badrule" | none => modeOf allow deny) ++ "-"
     ++ (if redirectCode.isSome then "redirect-" else "") ++ outcome
   return ({ model := m, agree := m == implCore, spec := spec,
             nontrivial := !rules.isEmpty || getStrD inp "scheme" != "", tag := tag } : Verdict).toJson
@@ -337,11 +338,16 @@ def multiH : Handler := fun inp impl => do
   let peer := getStrD impl "peer"
   let kind := getStrD inp "kind"   -- "ws": the websocket handler (hijack + raw dial), "sse": the flushing reverse proxy
   let n := targetsJ.length
-  let ts : List TargetM := targetsJ.zipIdx.map fun (j, i) =>
-    addTarget goParsers { allow := (getStrD j "allow").toList, deny := (getStrD j "deny").toList } i
-  let aliveOf (u : Nat) : Bool := match targetsJ[u]? with | some j => getStrD j "up" == "live" | none => false
-  let lk (k : Nat) : Option TargetM := if n = 0 then none else ts[k % n]?
   let isHTTP := proto == "http"
+  let viaTable := getBoolD inp "table"
+  let ts : List TargetM := targetsJ.zipIdx.map fun (j, i) =>
+    addTarget goParsers { allow := (getStrD j "allow").toList, deny := (getStrD j "deny").toList,
+                          redirect := if viaTable && isHTTP then (getStrD j "redirect").toList else [] } i
+  let aliveOf (u : Nat) : Bool := match targetsJ[u]? with | some j => getStrD j "up" == "live" | none => false
+  -- the lookup sequence is an oracle: which target the k-th lookup of the case returned (the harness' own round
+  -- robin, or the real table with the rr picker); the theorems hold for every such sequence
+  let picks : List Nat := (arrD impl "picks").map (fun j => j.getNat?.toOption.getD n)
+  let lk (k : Nat) : Option TargetM := match picks[k]? with | some i => ts[i]? | none => none
   let p : Proto := match proto with | "sni" => .sni | "dyn" => .dyn | "http" => .http | _ => .tcp
   let tcpPeer : TCPPeer := .addr ((splitHostPort peer.toList).bind (fun h => parseIP (stripZone h)))
   let res := if isHTTP then serveHTTP goParsers lk aliveOf peer.toList xff (fun _ => true) else serveTCP p lk aliveOf tcpPeer
@@ -364,21 +370,28 @@ def multiH : Handler := fun inp impl => do
   let servedOut := ioutcome == "200" || ioutcome == "echo"
   let known := servedOut || ioutcome == "403" || ioutcome == "404" || ioutcome == "502" || ioutcome == "closed"
     || ioutcome == "error"
-  let each := (ihits.zip refs).all fun (h, ref) =>
-    h == 0 || (if isHTTP then specDecision ref (some false) none else specDecision ref none (some false))
-  let spec := known && ihits.length == n && refs.length == n && each && (servedOut || ihits.all (· == 0))
-  -- class: what the first target does with the peer, and whether the instance a second lookup would return is up
-  -- and would have to refuse this peer
+  let admits (ref : Json) : Bool := if isHTTP then specDecision ref (some false) none else specDecision ref none (some false)
+  let each := (ihits.zip refs).all fun (h, ref) => h == 0 || admits ref
+  -- a 3xx answer: only from a target with a redirect= option that the lookup returned and whose rules admit
+  let is3xx := ioutcome.length == 3 && ioutcome.startsWith "3"
+  let redirectOK := picks.any fun i => match targetsJ[i]?, refs[i]? with
+    | some j, some ref => getStrD j "redirect" != "" && admits ref
+    | _, _ => false
+  let spec := (known || is3xx) && ihits.length == n && refs.length == n && each && (servedOut || ihits.all (· == 0))
+    && (!is3xx || redirectOK)
+  -- class: what the looked-up target does with the peer, and whether another instance of the route is up and would
+  -- have to refuse this peer
   let deniesAt (i : Nat) : Bool := match ts[i]? with
     | some t => if isHTTP then accessDeniedHTTP goParsers t.rules peer.toList xff else accessDeniedTCP t.rules tcpPeer
     | none => false
-  let nextRefuses := n ≥ 2 && aliveOf 1 && deniesAt 1
+  let otherRefuses (u : Nat) : Bool := (List.range n).any fun j => j != u && aliveOf j && deniesAt j
   let cls : String := match res with
     | .noRoute => "noroute"
     | .forbidden => "refused"
-    | .dialFailed _ => if nextRefuses then "down-next-refuses" else "down"
+    | .dialFailed u => if otherRefuses u then "down-next-refuses" else "down"
+    | .redirected _ => "redirected"
     | _ => "served"
-  let tag := proto ++ (if kind != "" then "/" ++ kind else "") ++ (if pp then "+pp" else "") ++ "-n" ++ toString n ++ "-" ++ cls
+  let tag := (if viaTable then "table:" else "") ++ proto ++ (if kind != "" then "/" ++ kind else "") ++ (if pp then "+pp" else "") ++ "-n" ++ toString n ++ "-" ++ cls
   return ({ model := m, agree := m == implCore, spec := spec,
             nontrivial := ts.any (fun t => !t.rules.isEmpty), tag := tag } : Verdict).toJson
 
